@@ -9,6 +9,7 @@ mod ops;
 mod world;
 mod panics;
 mod plain;
+mod plugbox;
 mod sched;
 mod props;
 mod runner;
